@@ -437,7 +437,13 @@ func (fx *FnCtx) callWrites(c *ssa.CallCommon, locals map[*ssa.Alloc]bool, comps
 	for _, m := range fc.Modifies {
 		if callee != nil {
 			if fv := freeVarNamed(callee, m); fv != nil {
-				comps[ptrComp(deref(fv.Type()))] = true
+				if _, isStruct := deref(fv.Type()).Underlying().(*types.Struct); isStruct {
+					for _, c := range leafComps(deref(fv.Type())) {
+						comps[c] = true
+					}
+				} else {
+					comps[ptrComp(deref(fv.Type()))] = true
+				}
 				continue
 			}
 		}
@@ -597,11 +603,14 @@ func (fx *FnCtx) generate() {
 	for _, m := range fx.fc.Modifies {
 		if fv := freeVarNamed(fn, m); fv != nil {
 			// cell-level: only the captured variable itself may be written through this component
-			c := ptrComp(deref(fv.Type()))
 			if _, isStruct := deref(fv.Type()).Underlying().(*types.Struct); isStruct {
-				fx.errf("contract of %s: captured struct variable %s in modifies is not supported", fx.key, m)
+				for _, c := range leafComps(deref(fv.Type())) {
+					fx.modSet[c] = true
+					fx.cellOnly[c] = append(fx.cellOnly[c], fv)
+				}
 				continue
 			}
+			c := ptrComp(deref(fv.Type()))
 			fx.modSet[c] = true
 			fx.cellOnly[c] = append(fx.cellOnly[c], fv)
 			continue
@@ -622,7 +631,14 @@ func (fx *FnCtx) generate() {
 			}
 			if d, ok := in.(*ssa.Defer); ok {
 				if b.Index != 0 {
-					fx.errf("outside subset: defer outside entry block in %s", fx.key)
+					// a conditionally registered defer is supported only when its callee has no visible
+					// effect (no modifies): it is then skipped at rundefers
+					dfc, _, _ := fx.calleeContract(&d.Call)
+					if dfc == nil || dfc.ModAll || len(dfc.Modifies) > 0 {
+						fx.errf("outside subset: defer outside entry block with a callee that has effects (or no contract) in %s", fx.key)
+					}
+					fx.notes["deferred call "+d.Call.String()+" registered conditionally: treated as effect-free at function exit (its contract has no modifies)"] = true
+					continue
 				}
 				fx.defers = append(fx.defers, d)
 			}
